@@ -52,6 +52,7 @@ def run_check(ctx, pid, prop_mods, marks, text, design_ref):
     sema_cov = {}
     if pid == "C12":
         sema_cov = sema_ranges(ctx, failures)
+        sema_cov["source_file_layer_texts"] = srcfile_ranges(ctx, recs, failures)
     failures.sort(key=lambda f: len(f["case"]))
     C.decide(ctx, failures, C.load_findings(pid))
     ctx.coverage.update(sema_cov)
@@ -85,7 +86,18 @@ def sema_ranges(ctx, failures):
         # non-ASCII identifiers and string contents
         old, new = rnd.choice(RENAMES)
         extra.append(re.sub(r"(?<![A-Za-z0-9_$.\"])" + old + r"(?![A-Za-z0-9_\"(])", new, p))
-    progs = ["qubit q;\nqubit q;", "bit b; bit b;", "const int n = 4; int[n] n;", "gate s q {}\ninclude \"stdgates.inc\";",
+    try:
+        from . import oracle_sema_c as OC
+        laid = []
+        for k, p in enumerate(progs[: len(progs) // 2]):
+            try:
+                laid.append(OC.relayout(p, ctx.seed * 17 + k))     # constructs spread over several lines, comments inside
+            except Exception:
+                pass
+        extra += laid
+    except ImportError:
+        pass
+    progs = ["qubit q;\nqubit q;", "bit b; bit b;", "int[8] x = 1;\nint[8] x\n    = 2;\n", "gate g(a) q { }\nqubit r;\nif (true) g(1.0,\n  2.0) r;", "const int n = 4; int[n] n;", "gate s q {}\ninclude \"stdgates.inc\";",
              "int é = 1; int é = 2;", "float[64] π = 1.0;", "x = y;", "qubit q; h q;", "int ñ; ñ = ñq;"] + progs + extra
     recs, stats = SP.run(ctx, progs, tag="c12sema")
     trees = C.run_impl(ctx, "tree", [G.enc(t) for t in progs], tag="c12sema-tree")
@@ -112,6 +124,36 @@ def sema_ranges(ctx, failures):
     return {"semantic_programs": len(progs), "semantic_programs_with_errors": nprog, "semantic_diagnostics_checked": nerr,
             "include_arrangements_checked": ninc,
             "semantic_diagnostic_kinds": kinds, "sema_correspondence": dict(stats)}
+
+
+def srcfile_ranges(ctx, recs, failures):
+    """the syntax diagnostics as the source-file layer hands them out refer to the text the caller supplied:
+    start <= end <= its length, on character boundaries, and they are the diagnostics of the lex-checked parse"""
+    sub = [r for r in recs if r["impl_tree"] and not PL.canon_panic(r["impl_tree"])
+           and PL.fields(r["impl_tree"]).get("clerrors", "")][: (6000 if ctx.tier == "quick" else 80000)]
+    out = C.run_impl(ctx, "srcerrs", [r["line"] for r in sub], tag="c12src")
+    for r, o in zip(sub, out):
+        if PL.canon_panic(o) or not o.startswith("len="):
+            continue
+        f = PL.fields(o)
+        b = r["text"].encode("utf-8")
+        want = PL.err_positions(PL.fields(r["impl_tree"]).get("clerrors", ""))
+        got = [x for x in f.get("errs", "").split(",") if x]
+        bad = None
+        for g in got:
+            a, _, e = g.partition("-")
+            a, e = int(a), int(e)
+            if not (a <= e <= len(b)):
+                bad = f"diagnostic range {g} exceeds the text ({len(b)} bytes)"
+            elif any(0 < p < len(b) and (b[p] & 0xC0) == 0x80 for p in (a, e)):
+                bad = f"diagnostic range {g} is not on character boundaries"
+        if bad is None and got != want:
+            bad = f"source-file layer reports {got[:6]}, the lex-checked parse {want[:6]}"
+        if bad:
+            failures.append({"case": r["line"], "check": "oracle", "detail": {"text": r["text"], "what": "diagnostic range (source-file layer): " + bad},
+                             "guards": set(), "model_agrees": not r["dis"],
+                             "replay_how": "echo '<input>' | /verif/harness/target/debug/oq3-run srcerrs"})
+    return len(sub)
 
 
 def parse_semtree(txt):
